@@ -442,6 +442,8 @@ def check(prop, tier, replay=None, quiet=False):
         for part in cfg["parts"]:
             if part.get("tier_only") and part["tier_only"] != tier:
                 continue
+            if os.environ.get("VERIF_ONLY_MODE") and part["mode"] != os.environ["VERIF_ONLY_MODE"]:
+                continue  # debugging aid: run only the parts of one build mode
             if replay:
                 scen = json.load(open(replay)).get("scenario", "")
                 if part.get("scenario_prefix") and not scen.startswith(part["scenario_prefix"]):
